@@ -196,6 +196,18 @@ def run(st, tier, seed):
             res.violations.append({"what": "HU2dotParen(dotParen2HU(s)) != s", "input": {"s": s}, "observed": [hu, back],
                                    "sig": "C08:roundtrip", "cmd": "peppercompiler.HU2dotParen"})
         reqs.append({"op": "dp2hu", "s": s}); impls.append(hu)
+        # malformed HU: a surplus closing bracket / a stray token after a complete description must be rejected, not cut off
+        if i % 3 == 0:
+            hu_ok = spell_hu(rng, t).strip()
+            if hu_ok:
+                bad_hu = hu_ok + rng.choice([")", " )", ") U3", " ) + U2", "))", " ( ", ") H2(U3)"])
+                rbh = call(lambda: parse_structure_statement(stmt(bad_hu))[3][1])
+                res.evaluations += 1
+                res.count("malformed:hu-surplus-token")
+                if "ok" in rbh and ("U" in bad_hu or "H" in bad_hu):
+                    res.violations.append({"what": "an HU description with a surplus bracket / token after a complete description was accepted (as %r)" % rbh["ok"],
+                                           "input": {"statement": stmt(bad_hu)}, "observed": rbh, "sig": "C08:accept-hu-surplus",
+                                           "cmd": "peppercompiler.component_parser_regex.parse_structure_statement(statement)"})
         # malformed: damage one parenthesis -> must be rejected
         if "(" in s:
             pos = rng.choice([k for k, c in enumerate(s) if c in "()"])
